@@ -53,7 +53,7 @@ def gen_ops(rng, n):
 def to_line(cid, ops):
     out, cloned = [], False
     for o in ops:
-        if o[0] in ('regs', 'regf'): out.append(f'{o[0]} {x(o[1])} {x(o[2])}')
+        if o[0] in ('regs', 'regp', 'regf'): out.append(f'{o[0]} {x(o[1])} {x(o[2])}')
         elif o[0] == 'regt': out.append(f'regt {x(o[1])} 1 {x(o[2])}')
         elif o[0] == 'fw': out.append(f'fw {x(o[1])} {x(o[2])}')
         elif o[0] == 'fd': out.append(f'fd {x(o[1])}')
@@ -77,7 +77,7 @@ def gen_cases(rng, tier, scale):
     n = (150 if tier == 'quick' else 2500) * scale
     for k in range(n):
         ops = gen_ops(rng, rng.randint(2, 12))
-        if not any(o[0] in ('regs', 'regf', 'regt') for o in ops):
+        if not any(o[0] in ('regs', 'regp', 'regf', 'regt') for o in ops):
             ops.insert(0, ('fw', 'f1', VALID[0])); ops.insert(1, ('regf', 'a', 'f1'))
         cases.append({'line': to_line(f'h{k}', ops), 'ops': ops, 'kind': 'history', 'tags': ['random']})
     # scenario skeletons (multi-step stories around dev-mode tracking, untracking and flag toggles) with
@@ -93,8 +93,6 @@ def gen_cases(rng, tier, scale):
         [('pi', 1), ('regs', 'b', 'B2 {{v}}'), ('regs', 'a', '  {{> b}}\n'), ('pi', 0), ('regs', 'c', '  {{> b}}\n'), ('clone',), ('sel', 1), ('pi', 1)],
         [('dev', 1), ('fw', 'f1', 'A1'), ('regf', 'a', 'f1'), ('regs', 'a', 'B2 {{v}}'), ('fw', 'f1', 'C3{{#if v}}y{{/if}}'), ('dev', 0), ('dev', 1)],
         [('dev', 1), ('fw', 'f3', '{{#if}'), ('regf', 'a', 'f3'), ('fw', 'f3', 'A1'), ('regf', 'a', 'f3'), ('fw', 'f3', '{{#if}'), ('dev', 0)],
-        # a file-backed template reached again from inside its own render (a -> b -> a, cut off by the data): every copy is current
-        [('dev', 1), ('fw', 'f1', 'A1{{#if v}}{{> b v=false}}{{/if}}'), ('regf', 'a', 'f1'), ('regs', 'b', 'C3[{{> a}}]'), ('fw', 'f1', 'B2{{#if v}}{{> b v=false}}{{/if}}')],
         # a registration that FAILS to compile changes nothing — the name stays file-backed and follows the file
         [('dev', 1), ('fw', 'f1', 'A1'), ('regf', 'a', 'f1'), ('regs', 'a', '{{#if}'), ('fw', 'f1', 'B2 {{v}}')],
         [('dev', 1), ('fw', 'f1', 'A1'), ('regf', 'a', 'f1'), ('regs', 'a', '{{/x}}'), ('fw', 'f1', 'C3{{#if v}}y{{/if}}'), ('regs', 'a', '{{#if}'), ('fw', 'f1', 'B2 {{v}}')],
@@ -113,7 +111,12 @@ def gen_cases(rng, tier, scale):
         [('dev', 1), ('regs', 'b', 'B2 {{v}}\nL2\n'), ('fw', 'f1', 'A1\n  {{> b}}\nZ'), ('regf', 'a', 'f1'), ('pi', 1), ('fw', 'f2', 'A1\n  {{> b}}\nZ'), ('regf', 'c', 'f2'), ('dev', 0)],
         [('pi', 1), ('regs', 'b', 'B2 {{v}}\nL2\n'), ('fw', 'f1', 'A1\n  {{> b}}\nZ'), ('regf', 'a', 'f1'), ('dev', 1), ('regf', 'c', 'f1'), ('clone',), ('sel', 1), ('pi', 0), ('regf', 'a', 'f1')],
     ]
-    for k, sk in enumerate(SK):           # every skeleton once as written, whatever the seed
+    # a file-backed template reached again from inside its own render (a -> b -> a, cut off by the data): every copy is current.
+    # Only as written: with a random operation inserted the include graph could become cyclic, which the property excludes.
+    SK_PLAIN = [[('pi', 1), ('regs', 'b', 'B2 {{v}}\nL2\n'), ('regp', 'a', 'A1\n  {{> b}}\nZ'), ('pi', 0), ('regp', 'c', 'A1\n  {{> b}}\nZ')],
+                [('regp', 'a', 'A1'), ('regp', 'a', '{{#if}'), ('pi', 1), ('regp', 'b', 'B2 {{v}}\nL2\n'), ('regs', 'c', 'C3\n\t{{> b}}\n')],
+                [('dev', 1), ('fw', 'f1', 'A1{{#if v}}{{> b v=false}}{{/if}}'), ('regf', 'a', 'f1'), ('regs', 'b', 'C3[{{> a}}]'), ('fw', 'f1', 'B2{{#if v}}{{> b v=false}}{{/if}}')]]
+    for k, sk in enumerate(SK + SK_PLAIN):           # every skeleton once as written, whatever the seed
         cases.append({'line': to_line(f'sk{k}', list(sk)), 'ops': list(sk), 'kind': 'history', 'tags': ['scenario-plain']})
     m = (120 if tier == 'quick' else 2000) * scale
     for k in range(m):
@@ -145,7 +148,7 @@ def simulate(ops):
     for o in ops:
         r = regs[sel]
         res = None
-        if o[0] == 'regs':
+        if o[0] in ('regs', 'regp'):
             if valid(o[2]):
                 r.tpl[o[1]] = ('src', o[2], r.pi)
         elif o[0] == 'regt':
@@ -202,7 +205,7 @@ def oracle(c, io, mo):
     # skip the observations of the registration ops themselves
     seq = []
     for o in c['ops']:
-        if o[0] in ('regs', 'regf', 'regt'):
+        if o[0] in ('regs', 'regp', 'regf', 'regt'):
             seq.append('reg')
         seq.append('step')
     si = 0
@@ -239,7 +242,7 @@ def oracle(c, io, mo):
     return None
 
 def nontrivial(c, mo, io):
-    names = [o[1] for o in c['ops'] if o[0] in ('regs', 'regt', 'regf')]
+    names = [o[1] for o in c['ops'] if o[0] in ('regs', 'regp', 'regt', 'regf')]
     return len(names) != len(set(names)) or any(o[0] in ('unreg', 'clear', 'fd') for o in c['ops'])
 
 def relevant_difference(c, mo, io):
